@@ -16,6 +16,7 @@
         &&& (a == 11 || b == 11 || c == 11 || self.abort_function_calls == o.abort_function_calls)
     }
     spec fn rest_eq(&self, o: &Self, skip: int) -> bool { self.rest_eq3(o, skip, -1, -1) }
+    spec fn only_remove_conns_changed(&self, o: &Self) -> bool { self.rest_eq(o, 2) }
     // registry teardown touches four queues: destroy_object (8), destroy_service (10), remove_function_calls (3), services_destroyed (4)
     spec fn rest_eq_teardown(&self, o: &Self) -> bool {
         &&& self.shutdown_now == o.shutdown_now &&& self.shutdown_idle == o.shutdown_idle &&& self.remove_conns == o.remove_conns
